@@ -5,7 +5,7 @@ VARIABLE sc
 RInit == CInit /\ sc = "init"
 RNext == \/ /\ Len(hist) < MaxLen
             /\ \E f \in Frames : \E aff \in (IF WithFFC THEN BOOLEAN ELSE {FALSE}) :
-                 /\ Detect(f, aff, FALSE, 0)
+                 /\ Detect(f, aff, NoTies, 0)
                  /\ hist' = Append(hist, [f |-> f, aff |-> aff]) /\ everAff' = (everAff \/ aff)
                  /\ lastThresh' = thresh /\ UNCHANGED nres
                  /\ sc' = ToJson([a |-> "frame", pix |-> f, aff |-> aff, cfg |-> dc])
